@@ -92,6 +92,10 @@ func (b *Built) SchemaModuleX(tops []string, extra map[string][][]int) []byte {
 		fmt.Fprintf(&sb, "n = %s -> T%d", strconv.Quote(n), i)
 	}
 	sb.WriteString("\nTopNames == " + tlaValue(tops) + "\nAllNames == " + tlaValue(names) + "\n")
+	if len(extra) == 0 {
+		sb.WriteString("ExtraVals(p) == {}\n====\n")
+		return []byte(sb.String())
+	}
 	sb.WriteString("ExtraVals(p) ==\n  CASE ")
 	var prims []string
 	for p := range extra {
